@@ -37,7 +37,20 @@ func actionPaths(f *ssa.Function, aps APSet, action string) map[string]bool {
 			continue
 		}
 		path := a.Path
-		switch p.Name() {
+		name := p.Name()
+		// the action hashers are called positionally -- keccak256(orig, q.GetId(), q.GasEstimate) -- so their
+		// parameters mean what their position says, whatever they are called
+		if f.Name() == "keccak256" && f.Signature.Recv() != nil && len(f.Params) == 4 {
+			switch p {
+			case f.Params[1]:
+				name = "orig"
+			case f.Params[2]:
+				name = "nonce"
+			case f.Params[3]:
+				name = "gasEstimate"
+			}
+		}
+		switch name {
 		case "m", "_m":
 			path = strings.TrimPrefix(path, "."+action)
 			if path == "" {
